@@ -314,6 +314,45 @@ def exceptvar_oracle(chk, rng, n):
                      "hy.eval(hy.read_many(src), env) vs exec of the python_reference (exception variables under private names)")
 
 
+TYPE_EXPR_TEMPLATES = [
+    # exception TYPE expressions that mention the clause's own variable name: Python evaluates the type before it binds the
+    # name, so the mention refers to the OUTER variable.  (program with %(n)s the name, %(A)s / %(B)s two classes; notes)
+    ('(setv %(n)s %(A)s)\n(try (raise (%(A)s "a")) (except [%(n)s %(n)s] (note (str %(n)s))))\n(note (is %(n)s %(A)s))', ["a", True]),
+    ('(try (raise (%(A)s "a")) (except [%(n)s %(A)s] (try (raise (%(A)s "b")) (except [%(n)s (type %(n)s)] (note (str %(n)s)))) (note (str %(n)s))))',
+     ["b", "a"]),
+    ('(setv %(n)s %(A)s)\n(try (raise (%(B)s "a")) (except [%(n)s [%(n)s %(B)s]] (note (str %(n)s))))', ["a"]),
+    ('(setv %(n)s #(%(A)s %(B)s))\n(try (raise (%(B)s "a")) (except [%(n)s (get %(n)s 1)] (note (str %(n)s))))\n(note (len %(n)s))', ["a", 2]),
+    ('(defn f [%(n)s] (try (raise (%(A)s "a")) (except [%(n)s %(n)s] (note (str %(n)s)))) (note (is %(n)s %(A)s)))\n(f %(A)s)', ["a", True]),
+    ('(setv %(n)s %(B)s)\n(try (try (raise (%(A)s "a")) (except [%(n)s %(n)s] (note "wrong"))) (except [q %(A)s] (note (str q))))', ["a"]),
+    ('(defn f [] (try (raise (%(A)s "a")) (except [%(n)s %(A)s] (try (raise (%(B)s "b")) (except [%(n)s [(type %(n)s) %(B)s]] (note (str %(n)s)))) '
+     '(note (str %(n)s)))))\n(f)', ["b", "a"]),
+    ('(setv %(n)s %(A)s)\n(note (try (raise (%(A)s "a")) (except [%(n)s (do (note "t") %(n)s)] (str %(n)s)) (finally (note "f"))))', ["t", "f", "a"]),
+]
+
+
+def handler_type_expr_oracle(chk, rng, n):
+    hy = vlib.use_repo_in_process()
+    for i in range(n):
+        tpl, want = TYPE_EXPR_TEMPLATES[i % len(TYPE_EXPR_TEMPLATES)]
+        name = ["e", "err", "x!", "exc-1"][(i // len(TYPE_EXPR_TEMPLATES)) % 4]
+        a, b = rng.sample(["E1", "E2", "E3"], 2)
+        src = tpl % {"n": name, "A": a, "B": b}
+        notes = []
+        env = {"note": notes.append}
+        for c in ("E1", "E2", "E3"):
+            env[c] = type(c, (Exception,), {})
+        try:
+            hy.eval(hy.read_many(src), env)
+            got = notes
+        except Exception as e:
+            got = notes + ["raises %s: %s" % (type(e).__name__, str(e)[:80])]
+        chk.count("handler-type-expression")
+        chk.case("Y:" + src, nontrivial=True, sample={"program": src, "notes": repr(got)} if i % 17 == 3 else None)
+        if got != want:
+            chk.fail("handler-type-sees-unbound-variable", {"program": src}, repr(got), repr(want),
+                     "hy.eval(hy.read_many(src), env) with note = list.append and E1..E3 unrelated Exception subclasses")
+
+
 def run(chk):
     chk.trusted = cc.TRUSTED_COMPILER
     chk.assumptions = ["handler types are exception class names; except-variables and `with` are outside the Coq model "
@@ -358,3 +397,4 @@ def run(chk):
     cc.differential(chk, progs)
     with_oracle(chk, rng, 3000 if thorough else 400)
     exceptvar_oracle(chk, rng, 12000 if thorough else 2500)
+    handler_type_expr_oracle(chk, rng, 320 if thorough else 64)
